@@ -115,6 +115,22 @@ struct Dumper {
     S += ")";
     if (auto *M = dyn_cast<CXXMethodDecl>(F))
       if (M->isConst()) S += " const";
+    // instantiations of one function template that differ only in arguments not visible in the parameter list
+    // (template <class T> T f(unsigned, double)) get distinct signatures: the return type is appended for them
+    if (F->isFunctionTemplateSpecialization()) {
+      S += " -> " + cty(F->getReturnType());
+      if (const TemplateArgumentList *TA = F->getTemplateSpecializationArgs()) {
+        S += " <";
+        for (unsigned I = 0; I < TA->size(); ++I) {
+          const TemplateArgument &A = TA->get(I);
+          if (I) S += ",";
+          if (A.getKind() == TemplateArgument::Type) S += cty(A.getAsType());
+          else if (A.getKind() == TemplateArgument::Integral) S += std::to_string(A.getAsIntegral().getExtValue());
+          else S += "?";
+        }
+        S += ">";
+      }
+    }
     return S;
   }
 
